@@ -13,7 +13,8 @@ CONSTANTS
   TableGrades = {"c0", "c12"}
   ListAns = {}
   MaxItems = 1
-  Layouts = {"flat2", "flat3", "g121"}
+  Layouts = {"flat2", "flat3", "g121", "g1212"}
+  TableOnly = {"g1212"}
   OkRecomputed = TRUE
 INVARIANT InvStage
 INVARIANT InvGradesInUnit
